@@ -333,6 +333,43 @@ fn run_job(job: &Value) -> Value {
         out.insert("f32_arith".into(), Value::Array(rows));
     }
 
+    // ---- single lines through the FromStr of each record type: [[kind, text], ...]
+    if let Some(reqs) = job.get("parse_lines").and_then(|v| v.as_array()) {
+        let rows: Vec<Value> = reqs
+            .iter()
+            .map(|r| {
+                let kind = r[0].as_str().unwrap_or("");
+                let t = r[1].as_str().unwrap_or("").to_string();
+                let res: Result<Value, Value> = match kind {
+                    "used" => guarded(|| t.parse::<EUsed>()).map(|e| dump_energy(&Energy::Used(e))),
+                    "prod" => guarded(|| t.parse::<EProd>()).map(|e| dump_energy(&Energy::Prod(e))),
+                    "aux" => guarded(|| t.parse::<EAux>()).map(|e| dump_energy(&Energy::Aux(e))),
+                    "out" => guarded(|| t.parse::<EOut>()).map(|e| dump_energy(&Energy::Out(e))),
+                    "need" => guarded(|| t.parse::<Needs>())
+                        .map(|n| json!({"service": n.service.to_string(), "values": nums(&n.values)})),
+                    "meta" => {
+                        // the callers only hand over lines that start with #META or #CTE_
+                        guarded(|| t.parse::<Meta>()).map(|m| json!([m.key, m.value]))
+                    }
+                    "factor" => guarded(|| t.parse::<Factor>()).map(|x| json!({
+                        "carrier": x.carrier.to_string(), "source": x.source.to_string(),
+                        "dest": x.dest.to_string(), "step": x.step.to_string(),
+                        "ren": num(x.ren), "nren": num(x.nren), "co2": num(x.co2), "comment": x.comment})),
+                    "display_energy" => {
+                        // parse as the kind the line announces, write it back
+                        guarded(|| t.parse::<Components>()).map(|c| json!(c.to_string()))
+                    }
+                    _ => Err(json!({"err": "NoKind"})),
+                };
+                match res {
+                    Ok(v) => json!({"ok": v}),
+                    Err(e) => e,
+                }
+            })
+            .collect();
+        out.insert("parse_lines".into(), Value::Array(rows));
+    }
+
     // ---- components
     let comps: Option<Components> = match job.get("comps") {
         None => None,
@@ -359,6 +396,13 @@ fn run_job(job: &Value) -> Value {
                     out.insert("comps".into(), json!({"ok": dump_components(&c)}));
                     if wants("comps_display") {
                         out.insert("comps_display".into(), json!(c.to_string()));
+                    }
+                    if wants("comps_roundtrip") {
+                        let text = c.to_string();
+                        match guarded(|| text.parse::<Components>()) {
+                            Ok(c2) => out.insert("comps_roundtrip".into(), json!({"ok": dump_components(&c2), "text2": c2.to_string()})),
+                            Err(e) => out.insert("comps_roundtrip".into(), e),
+                        };
                     }
                     if wants("normalize_twice") {
                         let c2 = c.clone();
@@ -413,6 +457,13 @@ fn run_job(job: &Value) -> Value {
                     out.insert("factors".into(), json!({"ok": dump_factors(&f)}));
                     if wants("factors_display") {
                         out.insert("factors_display".into(), json!(f.to_string()));
+                    }
+                    if wants("factors_roundtrip") {
+                        let text = f.to_string();
+                        match guarded(|| text.parse::<Factors>()) {
+                            Ok(f2) => out.insert("factors_roundtrip".into(), json!({"ok": dump_factors(&f2), "text2": f2.to_string()})),
+                            Err(e) => out.insert("factors_roundtrip".into(), e),
+                        };
                     }
                     if wants("prepare_twice") {
                         let f2 = f.clone();
